@@ -12,8 +12,10 @@
 (*                an on-curve midpoint implied between consecutive         *)
 (*                off-curve points, also across the closing edge,          *)
 (*   Outline      composite recursion: every component's outline under its *)
-(*                2x2 matrix (F2Dot14) and offset, nested composites       *)
-(*                composing, nesting deeper than MaxDepth is an error,     *)
+(*                2x2 matrix (F2Dot14) and offset - given as x/y values,   *)
+(*                scaled or not (SCALED_COMPONENT_OFFSET), or implied by   *)
+(*                two point numbers -, nested composites composing,        *)
+(*                nesting deeper than MaxDepth is an error,                *)
 (*   Encode..     the inverse of the parsers (used by the generator; the   *)
 (*                model checker verifies Parse(Encode(x)) = x).            *)
 (*                                                                         *)
@@ -55,6 +57,7 @@ I8B(v)  == <<IF v < 0 THEN v + 256 ELSE v>>
 
 \* simple glyph flags
 ON == 1   XSHORT == 2   YSHORT == 4   REPEAT == 8   XSAME == 16   YSAME == 32
+OVERLAP == 64          \* OVERLAP_SIMPLE: says nothing about the outline
 \* composite glyph flags
 WORDS == 1   XYVALUES == 2   HAVE_SCALE == 8   MORE == 32   HAVE_XY == 64   HAVE_2X2 == 128
 HAVE_INSTR == 256   SCALED_OFFSET == 2048   UNSCALED_OFFSET == 4096
@@ -147,6 +150,13 @@ ReadComps(b, i) ==
                        IF rest = <<>> THEN <<>> ELSE <<c>> \o rest
                   ELSE <<c>>
 
+\* byte position after the last component of a record whose components ReadComps accepted
+CompLen(fl) == 4 + (IF Bit(fl, WORDS) THEN 4 ELSE 2)
+                 + (IF Bit(fl, HAVE_SCALE) THEN 2 ELSE IF Bit(fl, HAVE_XY) THEN 4 ELSE IF Bit(fl, HAVE_2X2) THEN 8 ELSE 0)
+RECURSIVE CompsEnd(_, _)
+CompsEnd(b, i) == LET fl == U16(b, i) IN IF Bit(fl, MORE) THEN CompsEnd(b, i + CompLen(fl)) ELSE i + CompLen(fl)
+InstrFit(b, e) == IF ~Has(b, e, 2) THEN FALSE ELSE e + 1 + U16(b, e) <= Len(b)
+
 SplitContours(pts, ends) ==
   [k \in 1 .. Len(ends) |-> SubSeq(pts, (IF k = 1 THEN 0 ELSE ends[k - 1] + 1) + 1, ends[k] + 1)]
 
@@ -161,11 +171,17 @@ ParseGlyph(b) ==
                      n    == IF nc = 0 THEN 0 ELSE ends[nc] + 1
                      \* every contour has at least one point: end points strictly increase
                      incr == \A k \in 2 .. nc : ends[k] > ends[k - 1]
-                     u    == Unpack(b, 13 + 2 * nc + ilen, n)
+                     \* the instructions lie inside the record (also when there is no point at all: a record
+                     \* with numberOfContours = 0 is a simple glyph without contours, it draws nothing)
+                     fits == 12 + 2 * nc + ilen <= Len(b)
+                     u    == IF fits THEN Unpack(b, 13 + 2 * nc + ilen, n) ELSE [ok |-> FALSE, pts |-> <<>>]
                  IN IF ~incr \/ ~u.ok THEN NoGlyph("bad")
                     ELSE [kind |-> "simple", contours |-> SplitContours(u.pts, ends), comps |-> <<>>]
        ELSE LET cs == ReadComps(b, 11) IN
             IF cs = <<>> THEN NoGlyph("bad")
+            \* WE_HAVE_INSTRUCTIONS on any component: a length and that many bytes follow the last component
+            ELSE IF (\E k \in 1 .. Len(cs) : Bit(cs[k].flags, HAVE_INSTR)) /\ ~InstrFit(b, CompsEnd(b, 11))
+            THEN NoGlyph("bad")
             ELSE [kind |-> "composite", contours |-> <<>>, comps |-> cs]
 
 ---------------------------------------------------------------------------
@@ -229,14 +245,16 @@ MulF(v, a) == (v \div FU) * a + ((v % FU) * a) \div FU          \* floor(v * a /
 
 IsIdentity(c) == c.xx = FU /\ c.yy = FU /\ c.xy = 0 /\ c.yx = 0
 
+\* the matrix of a component alone (its offset is added afterwards, see CompLoop).
 \* Dev switch `tr` (used only to classify a mismatch): the two-by-two read row-major for column
 \* vectors, i.e. transposed
-ApplyC(c, p, tr) ==
-  IF IsIdentity(c) THEN [x |-> p.x + c.a1 * FU, y |-> p.y + c.a2 * FU, on |-> p.on]
+ApplyM(c, p, tr) ==
+  IF IsIdentity(c) THEN p
   ELSE LET xy == IF tr THEN c.yx ELSE c.xy
            yx == IF tr THEN c.xy ELSE c.yx
-       IN [x |-> MulF(p.x, c.xx) + MulF(p.y, xy) + c.a1 * FU,
-           y |-> MulF(p.x, yx) + MulF(p.y, c.yy) + c.a2 * FU, on |-> p.on]
+       IN [x |-> MulF(p.x, c.xx) + MulF(p.y, xy), y |-> MulF(p.x, yx) + MulF(p.y, c.yy), on |-> p.on]
+Shift(p, o) == [x |-> p.x + o[1], y |-> p.y + o[2], on |-> p.on]
+ApplyC(c, p, tr) == Shift(ApplyM(c, p, tr), <<c.a1 * FU, c.a2 * FU>>)       \* matrix, then the plain x/y offset
 
 ToFine(c) == [k \in 1 .. Len(c) |-> [x |-> c[k].x * FU, y |-> c[k].y * FU, on |-> c[k].on]]
 
@@ -252,10 +270,17 @@ MaxMag(cs) ==
 \*                   the model's own rounding, exact = no matrix involved
 \*            "err"  visiting must fail (nesting deeper than MaxDepth, component glyph id out of range)
 \*            "bad"  malformed record: outside the property
-\*            "unmodelled"  anchor-point components / SCALED_COMPONENT_OFFSET with a matrix
+\*            "unmodelled"  SCALED_COMPONENT_OFFSET under a matrix with off-diagonal terms; point numbers that
+\*                          do not name a delivered point (first component, phantom points)
 \*            "domain"      coordinates too large for the 32-bit arithmetic of the model
 Res(st) == [st |-> st, cs |-> <<>>, eps |-> 0, exact |-> TRUE]
-NoDev == [dropParent |-> FALSE, transpose |-> FALSE]
+\* Switches of Outline.  hypot is a legitimate alternative (named nondeterminism, Dev_ScaledOffsetSign): a
+\* SCALED_COMPONENT_OFFSET is multiplied by the matrix (OpenType text, HarfBuzz, allsorts' own bounding box of
+\* composites) or by the lengths of its rows (Apple, FreeType); for the diagonal matrices modelled here the two
+\* differ by the sign of a negative factor only.  The others reproduce known wrong readings and serve only to
+\* give a mismatch a stable class: dropParent, transpose (see above), unscaled (SCALED_COMPONENT_OFFSET ignored),
+\* noAnchor (a component positioned by point numbers placed at offset 0).
+NoDev == [dropParent |-> FALSE, transpose |-> FALSE, hypot |-> FALSE, unscaled |-> FALSE, noAnchor |-> FALSE]
 
 RecOf(glyphs, g) ==
   LET S == {k \in 1 .. Len(glyphs) : glyphs[k].gid = g} IN
@@ -276,29 +301,56 @@ Outline(glyphs, n, g, depth, dev) ==
                                           eps |-> 0, exact |-> TRUE]
               [] G.kind = "composite" -> CompLoop(glyphs, n, G.comps, 1, depth, dev, Res("ok"))
 
-\* components k.. of a composite visited at `depth`; acc = what the earlier components delivered
+\* components k.. of a composite visited at `depth`; acc = what the earlier components delivered.
+\* Position of a component (OpenType glyf, "composite glyph description"):
+\*   ARGS_ARE_XY_VALUES set: the arguments are the offset (dx, dy), added after the matrix; with
+\*     SCALED_COMPONENT_OFFSET (and not UNSCALED_COMPONENT_OFFSET, which wins as the default does) and a matrix
+\*     the offset is in the component's coordinate system, i.e. scaled as well;
+\*   ARGS_ARE_XY_VALUES clear: the arguments are point numbers: argument1 counts the points the earlier
+\*     components of this composite delivered, argument2 the points of this component (after its matrix); the
+\*     component is moved so that the two coincide.
+FlatPts(cs) == FoldLeft(LAMBDA a, c : a \o c, <<>>, cs)
+ScaledOffset(c) == /\ Bit(c.flags, XYVALUES) /\ Bit(c.flags, SCALED_OFFSET) /\ ~Bit(c.flags, UNSCALED_OFFSET)
+                   /\ ~IsIdentity(c) /\ (c.a1 # 0 \/ c.a2 # 0)
 CompLoop(glyphs, n, comps, k, depth, dev, acc) ==
   IF k > Len(comps) THEN acc
-  ELSE LET c == comps[k] IN
-       IF ~Bit(c.flags, XYVALUES) THEN Res("unmodelled")
-       ELSE IF Bit(c.flags, SCALED_OFFSET) /\ ~Bit(c.flags, UNSCALED_OFFSET) /\ ~IsIdentity(c) THEN Res("unmodelled")
+  ELSE LET c == comps[k]
+           anchored == ~Bit(c.flags, XYVALUES) /\ ~dev.noAnchor
+           scaled   == ScaledOffset(c) /\ ~dev.unscaled
+       IN
+       \* a scaled offset under a matrix with off-diagonal terms: implementations disagree by more than a sign
+       IF scaled /\ (c.xy # 0 \/ c.yx # 0) THEN Res("unmodelled")
        ELSE LET child == Outline(glyphs, n, c.gid, depth + 1, dev) IN
             IF child.st # "ok" THEN Res(child.st)
             ELSE IF ~IsIdentity(c) /\ MaxMag(child.cs) > DomainMax THEN Res("domain")
             ELSE LET childIsComposite == ParseGlyph(RecOf(glyphs, c.gid)).kind = "composite"
                      keep == dev.dropParent /\ childIsComposite     \* deviation: transform not applied
-                     cs   == IF keep THEN child.cs
-                             ELSE [i \in 1 .. Len(child.cs) |->
-                                     [j \in 1 .. Len(child.cs[i]) |-> ApplyC(c, child.cs[i][j], dev.transpose)]]
-                     eps  == IF keep \/ IsIdentity(c) THEN child.eps
+                     m0   == [i \in 1 .. Len(child.cs) |->
+                                [j \in 1 .. Len(child.cs[i]) |-> ApplyM(c, child.cs[i][j], dev.transpose)]]
+                     e1   == IF IsIdentity(c) THEN child.eps          \* rounding bound of m0
                              ELSE LET sx == Abs(c.xx) + Abs(c.xy)
                                       sy == Abs(c.yx) + Abs(c.yy)
                                       s  == IF sx > sy THEN sx ELSE sy
                                   IN (child.eps * s + FU - 1) \div FU + 2
-                 IN CompLoop(glyphs, n, comps, k + 1, depth, dev,
-                             [st |-> "ok", cs |-> acc.cs \o cs,
-                              eps |-> IF eps > acc.eps THEN eps ELSE acc.eps,
-                              exact |-> acc.exact /\ child.exact /\ (keep \/ IsIdentity(c))])
+                     pp   == FlatPts(acc.cs)
+                     cp   == FlatPts(m0)
+                 IN IF anchored /\ ~keep /\ (c.a1 >= Len(pp) \/ c.a2 >= Len(cp))
+                    THEN Res("unmodelled")          \* first component, phantom points, numbers out of range
+                    ELSE
+                    LET off == IF anchored THEN <<pp[c.a1 + 1].x - cp[c.a2 + 1].x, pp[c.a1 + 1].y - cp[c.a2 + 1].y>>
+                               ELSE IF ~Bit(c.flags, XYVALUES) THEN <<0, 0>>                \* dev.noAnchor
+                               ELSE IF scaled THEN <<c.a1 * (IF dev.hypot THEN Abs(c.xx) ELSE c.xx),
+                                                     c.a2 * (IF dev.hypot THEN Abs(c.yy) ELSE c.yy)>>
+                               ELSE <<c.a1 * FU, c.a2 * FU>>
+                        cs  == IF keep THEN child.cs
+                               ELSE [i \in 1 .. Len(m0) |-> [j \in 1 .. Len(m0[i]) |-> Shift(m0[i][j], off)]]
+                        eps == IF keep THEN child.eps
+                               ELSE IF anchored THEN 2 * e1 + acc.eps
+                               ELSE e1
+                    IN CompLoop(glyphs, n, comps, k + 1, depth, dev,
+                                [st |-> "ok", cs |-> acc.cs \o cs,
+                                 eps |-> IF eps > acc.eps THEN eps ELSE acc.eps,
+                                 exact |-> acc.exact /\ child.exact /\ (keep \/ IsIdentity(c))])
 
 ---------------------------------------------------------------------------
 \* ---- conformance of delivered commands -----------------------------------------
@@ -343,7 +395,8 @@ RefCommands(cs) == FoldLeft(LAMBDA acc, c : acc \o Walk(c), <<>>, cs)
 \* mode: [short: use one-byte deltas where they fit, same: use the SAME bit for zero deltas,
 \*        zero: how a zero delta is written when `same` is off: "word" | "short+" | "short-",
 \*        rep: "none" | "max" (every run of >= 2 equal flags) | "zero" (every flag repeated 0 times)
-\*             | "split" (first flag plain, the rest of the run repeated)]
+\*             | "split" (first flag plain, the rest of the run repeated),
+\*        ovl: the first flag carries OVERLAP_SIMPLE]
 AxisFlag(d, mode, short, same) ==
   IF d = 0 THEN (IF mode.same THEN same
                  ELSE IF mode.zero = "short+" THEN short + same
@@ -381,7 +434,8 @@ EncodeSimple(contours, mode, instr) ==
       dx   == [k \in 1 .. n |-> pts[k].x - (IF k = 1 THEN 0 ELSE pts[k - 1].x)]
       dy   == [k \in 1 .. n |-> pts[k].y - (IF k = 1 THEN 0 ELSE pts[k - 1].y)]
       fl   == [k \in 1 .. n |-> (IF pts[k].on THEN ON ELSE 0) + AxisFlag(dx[k], mode, XSHORT, XSAME)
-                                                             + AxisFlag(dy[k], mode, YSHORT, YSAME)]
+                                                             + AxisFlag(dy[k], mode, YSHORT, YSAME)
+                                  + (IF mode.ovl /\ k = 1 THEN OVERLAP ELSE 0)]
       ends == [k \in 1 .. Len(contours) |-> Len(Flatten(SubSeq(contours, 1, k), 1)) - 1]
       xs   == {pts[k].x : k \in 1 .. n} \cup {0}
       ys   == {pts[k].y : k \in 1 .. n} \cup {0}
@@ -392,13 +446,14 @@ EncodeSimple(contours, mode, instr) ==
        \o Flatten([k \in 1 .. n |-> AxisBytes(dx[k], fl[k], XSHORT, XSAME)], 1)
        \o Flatten([k \in 1 .. n |-> AxisBytes(dy[k], fl[k], YSHORT, YSAME)], 1)
 
-\* comps: sequence of [gid, words (BOOLEAN), a1, a2, kind ("none" | "scale" | "xy" | "2x2"), xx, yx, xy, yy,
-\*                     extra (further flag bits)]
+\* comps: sequence of [gid, words (BOOLEAN), pts (BOOLEAN: the arguments are point numbers), a1, a2,
+\*                     kind ("none" | "scale" | "xy" | "2x2"), xx, yx, xy, yy, extra (further flag bits)]
 CompFlags(c, more) ==
-  (IF c.words THEN WORDS ELSE 0) + XYVALUES + (IF more THEN MORE ELSE 0) + c.extra
+  (IF c.words THEN WORDS ELSE 0) + (IF c.pts THEN 0 ELSE XYVALUES) + (IF more THEN MORE ELSE 0) + c.extra
     + (CASE c.kind = "none" -> 0 [] c.kind = "scale" -> HAVE_SCALE [] c.kind = "xy" -> HAVE_XY [] c.kind = "2x2" -> HAVE_2X2)
 
-EncodeComposite(comps) ==
+\* instr follows the last component iff some component carries WE_HAVE_INSTRUCTIONS (in `extra`)
+EncodeComposite(comps, instr) ==
   I16B(-1) \o I16B(0) \o I16B(0) \o I16B(0) \o I16B(0)
     \o Flatten([k \in 1 .. Len(comps) |->
          LET c == comps[k] IN
@@ -408,4 +463,5 @@ EncodeComposite(comps) ==
                  [] c.kind = "scale" -> I16B(c.xx)
                  [] c.kind = "xy"    -> I16B(c.xx) \o I16B(c.yy)
                  [] c.kind = "2x2"   -> I16B(c.xx) \o I16B(c.yx) \o I16B(c.xy) \o I16B(c.yy))], 1)
+    \o (IF \E k \in 1 .. Len(comps) : Bit(comps[k].extra, HAVE_INSTR) THEN U16B(Len(instr)) \o instr ELSE <<>>)
 =============================================================================
